@@ -721,6 +721,14 @@ Proof.
   specialize (IH n1 Hi Hwl Hkl). lia.
 Qed.
 
+Lemma run_term_mono_between : forall l1 l2 n, inv n -> Forall wf_action (l1 ++ l2) -> Forall keeps_shard (l1 ++ l2) ->
+  n_term (state_after cfg_fixed n l1) <= n_term (state_after cfg_fixed n (l1 ++ l2)).
+Proof.
+  intros l1 l2 n H Hwf Hks. rewrite state_after_app.
+  apply Forall_app in Hwf. destruct Hwf as [Hw1 Hw2]. apply Forall_app in Hks. destruct Hks as [_ Hk2].
+  apply run_term_mono; [apply reachable_inv; assumption|exact Hw2|exact Hk2].
+Qed.
+
 (* DeleteShard of a term older than the node's (the stored one when no controller is loaded) is refused in every residency
    state, and term, log and commit offset stay as they are. *)
 Lemma delete_shard_older_term_refused : forall c n t, inv n -> t < n_term n ->
